@@ -1,5 +1,5 @@
 (* Props/C12.v — cw20-ics20: channel balance tracks vouchers exactly; error acks change nothing. *)
-Require Import CwPlus.Params CwPlus.Base CwPlus.AMap CwPlus.Ics20Model CwPlus.Ics20Lemmas CwPlus.Ics20Lemmas2 CwPlus.Ics20Lemmas3.
+Require Import CwPlus.Params CwPlus.Base CwPlus.AMap CwPlus.Ics20Model CwPlus.Ics20Lemmas CwPlus.Ics20Lemmas2 CwPlus.Ics20Lemmas3 CwPlus.Ics20Lemmas4.
 Open Scope N_scope.
 
 (* over every history (without balance-rewriting migrations): outstanding + failed + redeemed = sent
@@ -96,6 +96,39 @@ Theorem c12_update_balances : forall c l s s', Inv s -> NoDup (map (fun b => snd
   (forall k h cs', In (c, k, h) l -> get_cs s' c k = Some cs' -> exists held, h = Some held /\ outstanding cs' = held).
 Proof. exact upd_all_spec. Qed.
 
+(* ACROSS MIGRATIONS.  A migration (of any stored version, accepted or refused) raises `outstanding` and
+   `total_sent` of every entry by one and the same amount and lowers neither ... *)
+Theorem c12_migrate_same_delta : forall st g ok bal st', Inv st -> migrate st g ok bal = Ok st' ->
+  forall c k, sent_of st' c k + out_of st c k = sent_of st c k + out_of st' c k /\ out_of st c k <= out_of st' c k.
+Proof. exact migrate_same_delta. Qed.
+(* ... hence over EVERY history from any state satisfying the invariant - transfers, packets,
+   acknowledgements, timeouts, donations and migrations in any order - what was ever recorded as sent
+   and is no longer outstanding is exactly what was refunded plus redeemed, per channel and
+   denomination (stated without subtraction) *)
+Theorem c12_released_all_histories : forall cs w c k, Inv (w_st w) ->
+  sent_of (w_st (wrun w cs)) c k + out_of (w_st w) c k =
+    sent_of (w_st w) c k + out_of (w_st (wrun w cs)) c k + g_failed w cs c k + g_redeemed w cs c k.
+Proof. exact released_identity. Qed.
+Theorem c12_released_from_instantiate : forall m st hold0 cs c k, instantiate m = Ok st ->
+  let w := wrun (mkW st hold0) cs in
+  sent_of (w_st w) c k = out_of (w_st w) c k + g_failed (mkW st hold0) cs c k + g_redeemed (mkW st hold0) cs c k.
+Proof. exact released_from_start. Qed.
+(* a 0.13-layout state whose books lag the escrow by a donation of 40: the migration reconciles
+   (outstanding 60 -> 100, total_sent 60 -> 100), then 25 are redeemed and the 60 of the first packet
+   refunded: 100 = 15 + 60 + 25 *)
+Example c12_migration_nonvacuous :
+  let stL := mkSt 100 None (Some 0) [(5, Some 7)] [1] [] None V2 None in
+  let w := mkW stL [] in
+  let cs := [(mkBlock 1 50, WSendCw20 5 3 60 (Some (1, 9, Some 3, Some 2)));
+             (mkBlock 2 0, WDonate 11 40);
+             (mkBlock 3 0, WMigrate None);
+             (mkBlock 4 0, WRecv (mkIn 0 15 1 (Some (mkPd 25 (PVoucher 0 15 (BKey 11)) None (Some 4) None))) true);
+             (mkBlock 5 0, WFail (mkOut 1 60 11 3 9 None 0) true)] in
+  Inv stL /\ ver (w_st (wrun w cs)) = VCur /\
+  (sent_of (w_st (wrun w cs)) 1 11, out_of (w_st (wrun w cs)) 1 11, g_failed w cs 1 11, g_redeemed w cs 1 11) = (100, 15, 60, 25).
+Proof.
+  cbv zeta. split; [constructor; cbn; [constructor|intros ? ? ? X; discriminate]|]. split; vm_compute; reflexivity.
+Qed.
 Example c12_nonvacuous :
   exists st, instantiate (mkInit 100 None (Some 0) [(Some 5, Some 7)] [1]) = Ok st /\
     let w := mkW st [] in
@@ -118,3 +151,6 @@ Print Assumptions c12_execute.
 Print Assumptions c12_failed_send.
 Print Assumptions c12_migrate_keeps_invariant.
 Print Assumptions c12_update_balances.
+Print Assumptions c12_migrate_same_delta.
+Print Assumptions c12_released_all_histories.
+Print Assumptions c12_released_from_instantiate.
